@@ -939,7 +939,7 @@ static std::string run_case(const std::vector<std::string> &t)
 
 // Cases are run in forked children, a batch of lines per child (a fork per case is too slow for
 // exhaustive sweeps): the child answers line by line; when it dies (signal) or hangs (alarm) the
-// parent reports CRASH:<sig> / HANG for the line it was working on and starts a new child for the
+// parent reports CRASH:<sig> / HANG (30 s of CPU time) for the line it was working on and starts a new child for the
 // remaining lines, so crashes and hangs stay observable per case.
 static std::string one_case(const std::string &line)
 {
@@ -980,7 +980,13 @@ int main()
             rl.rlim_cur = rl.rlim_max = 0;
             setrlimit(RLIMIT_CORE, &rl);
             for (size_t k = i; k < end; k++) {
-                alarm(TIMEOUT_S);
+                // CPU-time budget per case (not wall clock: the machine may be heavily loaded)
+                struct itimerval it;
+                it.it_interval.tv_sec = 0;
+                it.it_interval.tv_usec = 0;
+                it.it_value.tv_sec = TIMEOUT_S;
+                it.it_value.tv_usec = 0;
+                setitimer(ITIMER_PROF, &it, NULL);
                 std::string s = one_case(lines[k]) + "\n";
                 size_t off = 0;
                 while (off < s.size()) {
@@ -1014,7 +1020,7 @@ int main()
             // the child died while working on line i
             std::string why = "DIED";
             if (WIFSIGNALED(status))
-                why = WTERMSIG(status) == SIGALRM ? "HANG" : "CRASH:" + std::to_string(WTERMSIG(status));
+                why = (WTERMSIG(status) == SIGALRM or WTERMSIG(status) == SIGPROF) ? "HANG" : "CRASH:" + std::to_string(WTERMSIG(status));
             std::cout << why << "\n";
             i++;
         }
